@@ -20,4 +20,33 @@ func begin(t *testing.T, id string) {
 	hx.Quiet()
 	hx.RapidFlags()
 	_ = os.Setenv("VERIF_PROPERTY", id)
+	if err := trustStore(); err != nil {
+		hx.HarnessError("trust store: %v", err)
+	}
+}
+
+// trustStore makes the process's platform trust store (read once, on first use, from SSL_CERT_FILE)
+// hold the generated root CAs of the checks ("r0" of C07, "root" of C02/C08/C15): a verifier that ever
+// falls back to the system roots would then accept chains the layout does not authorise, as it would
+// on a machine whose store holds the CA. The library never consults the system roots when it works as
+// stated, so this changes nothing on a correct tree.
+func trustStore() error {
+	certs, err := hx.BuildPKI(hx.PKISpec{Certs: []hx.PKICert{
+		{Name: "r0", IsCA: true, Validity: "valid", KeyKind: "p256"},
+		{Name: "root", IsCA: true, Validity: "valid", KeyKind: "p256"}}})
+	if err != nil {
+		return err
+	}
+	dir, err := os.MkdirTemp("", "trust-")
+	if err != nil {
+		return err
+	}
+	if err := os.MkdirAll(dir+"/empty", 0o755); err != nil {
+		return err
+	}
+	if err := os.WriteFile(dir+"/roots.pem", []byte(certs["r0"].PEM+certs["root"].PEM), 0o644); err != nil {
+		return err
+	}
+	_ = os.Setenv("SSL_CERT_FILE", dir+"/roots.pem")
+	return os.Setenv("SSL_CERT_DIR", dir+"/empty")
 }
